@@ -130,6 +130,7 @@ class BinningBase:
         result: Dict[str, Any] = {
             "adaptive": self._adaptive,
             "binning_type": type(self).__name__,
+            "includes_right_edge": self._includes_right_edge,
         }
         self._update_dict(result)
         return result
@@ -655,6 +656,7 @@ class FixedWidthBinning(BinningBase):
         a_dict["bin_width"] = self.bin_width
         a_dict["bin_shift"] = self._shift
         a_dict["bin_times_min"] = self._times_min
+        a_dict["align"] = self._align
 
 
 class ExponentialBinning(BinningBase):
